@@ -46,7 +46,7 @@ var c15Inputs = []struct {
 type c15Case struct {
 	Input           int
 	Dry, Print, Log int
-	Out             int // 0 default path, 1 -out in another directory
+	Out             int // 0 default path, 1 -out in another directory, 2 -out through a symbolic link to a directory followed by ".." (what the OS resolves is not what a lexical clean-up yields)
 	State           int // 0 absent, 1 present with old bytes, 2 parent directory missing, 3 path is a directory, 4 path below a regular file, 5 present and read-only file, 6 hard link to the setup file, 7 symbolic link to the setup file
 	FullOut         int // 1: stdout cannot be written (/dev/full), meaningful with -print
 }
@@ -77,6 +77,13 @@ func c15Prepare(base string, c c15Case) (root, cwd string, args []string, outPat
 	if c.Out == 1 {
 		outAsGiven = "../outdir/o.go"
 	}
+	if c.Out == 2 {
+		if c.State >= 2 {
+			return "", "", nil, "", "", false
+		}
+		files["elsewhere/sub/keep.go"] = "package sub\n"
+		outAsGiven = "linkdir/../o.go" // p/linkdir -> ../elsewhere/sub, so the OS resolves this to <root>/elsewhere/o.go
+	}
 	switch c.State {
 	case 2:
 		if c.Out == 0 {
@@ -92,6 +99,12 @@ func c15Prepare(base string, c c15Case) (root, cwd string, args []string, outPat
 	outPath = filepath.Join(cwd, outAsGiven)
 	if err := histfs.WriteTree(root, files); err != nil {
 		return "", "", nil, "", "", false
+	}
+	if c.Out == 2 {
+		if os.Symlink("../elsewhere/sub", filepath.Join(cwd, "linkdir")) != nil {
+			return "", "", nil, "", "", false
+		}
+		outPath = filepath.Join(root, "elsewhere", "o.go")
 	}
 	switch c.State {
 	case 1:
@@ -124,7 +137,7 @@ func c15Prepare(base string, c c15Case) (root, cwd string, args []string, outPat
 		args = append(args, "-log")
 		logPath = strings.TrimSuffix(outPath, filepath.Ext(outPath)) + ".log"
 	}
-	if c.Out == 1 || c.State == 2 || c.State == 4 {
+	if c.Out >= 1 || c.State == 2 || c.State == 4 {
 		args = append(args, "-out", outAsGiven)
 	}
 	args = append(args, "setup.go")
@@ -250,7 +263,7 @@ func init() {
 			for dry := 0; dry < 2; dry++ {
 				for pr := 0; pr < 2; pr++ {
 					for lg := 0; lg < 2; lg++ {
-						for out := 0; out < 2; out++ {
+						for out := 0; out < 3; out++ {
 							for st := 0; st < 8; st++ {
 								if !th && (in == 1 || in == 6 || in == 8 || st == 4 || st == 5 || (out == 1 && st == 3)) {
 									continue
@@ -278,7 +291,7 @@ func init() {
 			}
 		}
 		e.Rep.Set("strace_monitor", useStrace)
-		e.Rep.Rule("complete product input kind{accepted x2, rejected in parse / build / at the format stage, no interface, syntax error, a module of its own whose go.mod lacks / has the require for an imported replaced module} x -dry x -print x -log x {default path, -out other dir} x output-path state{absent, present with old bytes, parent directory missing, path is a directory, path below a regular file, read-only file, hard link to the setup file, symbolic link to the setup file} x (with -print) stdout {writable, /dev/full}; " +
+		e.Rep.Rule("complete product input kind{accepted x2, rejected in parse / build / at the format stage, no interface, syntax error, a module of its own whose go.mod lacks / has the require for an imported replaced module} x -dry x -print x -log x {default path, -out other dir, -out through a symlinked directory and ..} x output-path state{absent, present with old bytes, parent directory missing, path is a directory, path below a regular file, read-only file, hard link to the setup file, symbolic link to the setup file} x (with -print) stdout {writable, /dev/full}; " +
 			"oracle O-frame: snapshot (content hash + mode of every path under the scratch root incl. HOME and TMPDIR, GOCACHE and the go telemetry dir excluded) before vs after: changed paths subset of {output iff exit 0 and not -dry} + {log iff -log}; " +
 			"with -dry or a failed run the output path keeps existence, bytes and mode; thorough adds an strace monitor of every write-class syscall issued by the convergen process itself; " +
 			"non-trivial = run that fails or carries -dry with a pre-existing output path")
